@@ -25,7 +25,7 @@ package keeper
 //@ requires wfTunnel(Store_tunnel, tunnelID)
 //@ ensures err == nil <==> old(has(Store_tunnel, types.TunnelStoreKey(tunnelID)))
 //@ ensures err != nil ==> Store_tunnel == old(Store_tunnel)
-//@ ensures err == nil ==> !tunnelAt(Store_tunnel, tunnelID).IsActive && !has(Store_tunnel, types.ActiveTunnelIDStoreKey(tunnelID))
+//@ ensures err == nil ==> Store_tunnel == store(remove(old(Store_tunnel), types.ActiveTunnelIDStoreKey(tunnelID)), types.TunnelStoreKey(tunnelID), enc(with(old(tunnelAt(Store_tunnel, tunnelID)), "IsActive", false)))
 
 //@ func (k Keeper) ProducePacket
 //@ trusted
@@ -37,3 +37,42 @@ package keeper
 //@ modifies Store_tunnel, Bank, Other
 //@ requires wfTunnel(Store_tunnel, tunnelID)
 //@ ensures err != nil ==> Bank == old(Bank) && Other == old(Other) && Store_tunnel == old(Store_tunnel)
+
+// ---- C17: deposits -----------------------------------------------------------------------------------
+//@ spec depHas(s Store, t Int, a Addr) Bool = has(s, types.DepositStoreKey(t, a))
+//@ spec depAt(s Store, t Int, a Addr) types.Deposit = dec(types.Deposit, s[types.DepositStoreKey(t, a)])
+//@ spec wfDeposit(s Store, t Int, a Addr) Bool = depHas(s, t, a) ==> (depAt(s, t, a).TunnelID == t && bech32ok(depAt(s, t, a).Depositor) && bech32addr(depAt(s, t, a).Depositor) == a)
+//@ spec tunnelParams(s Store) types.Params = has(s, types.ParamsKey) ? dec(types.Params, s[types.ParamsKey]) : zero(types.Params)
+
+//@ func (k Keeper) validateDepositDenom
+//@ trusted
+
+// A deposit moves exactly `depositAmount` from the depositor to the module account and adds exactly that
+// amount to the depositor's record and to the tunnel's total; nothing else in the store changes.
+//@ func (k Keeper) DepositToTunnel
+//@ modifies Store_tunnel, Bank
+//@ requires wfTunnel(Store_tunnel, tunnelID) && wfDeposit(Store_tunnel, tunnelID, depositor)
+//@ ensures err == nil ==> Bank == types.bankA2M(old(Bank), depositor, types.ModuleName, depositAmount)
+//@ ensures err != nil ==> Store_tunnel == old(Store_tunnel)
+//@ ensures err == nil ==> Store_tunnel == store(store(old(Store_tunnel), types.DepositStoreKey(tunnelID, depositor),
+//@        enc(old(depHas(Store_tunnel, tunnelID, depositor)) ? with(old(depAt(Store_tunnel, tunnelID, depositor)), "Amount", ext("Coins.Add", old(depAt(Store_tunnel, tunnelID, depositor)).Amount, depositAmount))
+//@                                                           : types.Deposit{tunnelID, addrstr(depositor), depositAmount})),
+//@        types.TunnelStoreKey(tunnelID), enc(with(old(tunnelAt(Store_tunnel, tunnelID)), "TotalDeposit", ext("Coins.Add", old(tunnelAt(Store_tunnel, tunnelID)).TotalDeposit, depositAmount))))
+
+// A withdrawal is bounded by the withdrawer's own record, pays out exactly the withdrawn amount, reduces the
+// record (deleting it at zero) and the total by that amount, and deactivates the tunnel exactly when it was
+// active and the new total no longer covers the minimum deposit.
+//@ func (k Keeper) WithdrawFromTunnel
+//@ modifies Store_tunnel, Bank
+//@ requires wfTunnel(Store_tunnel, tunnelID) && wfDeposit(Store_tunnel, tunnelID, withdrawer)
+//@ ensures err == nil ==> old(depHas(Store_tunnel, tunnelID, withdrawer)) && ext("Coins.IsAllGTE", old(depAt(Store_tunnel, tunnelID, withdrawer)).Amount, amount)
+//@ ensures err == nil ==> Bank == types.bankM2A(old(Bank), types.ModuleName, withdrawer, amount)
+//@ ensures err == nil ==> (let na = ext("Coins.Sub", old(depAt(Store_tunnel, tunnelID, withdrawer)).Amount, amount) in
+//@        (ext("Coins.IsZero", na) ==> !depHas(Store_tunnel, tunnelID, withdrawer))
+//@        && (!ext("Coins.IsZero", na) ==> Store_tunnel[types.DepositStoreKey(tunnelID, withdrawer)] == enc(with(old(depAt(Store_tunnel, tunnelID, withdrawer)), "Amount", na))))
+//@ ensures err == nil ==> tunnelAt(Store_tunnel, tunnelID).TotalDeposit == ext("Coins.Sub", old(tunnelAt(Store_tunnel, tunnelID)).TotalDeposit, amount)
+//@ ensures err == nil ==> (let deact = old(tunnelAt(Store_tunnel, tunnelID)).IsActive
+//@                                    && !ext("Coins.IsAllGTE", ext("Coins.Sub", old(tunnelAt(Store_tunnel, tunnelID)).TotalDeposit, amount), old(tunnelParams(Store_tunnel)).MinDeposit) in
+//@        (deact ==> !tunnelAt(Store_tunnel, tunnelID).IsActive && !has(Store_tunnel, types.ActiveTunnelIDStoreKey(tunnelID)))
+//@        && (!deact ==> tunnelAt(Store_tunnel, tunnelID).IsActive == old(tunnelAt(Store_tunnel, tunnelID)).IsActive
+//@                       && Store_tunnel[types.ActiveTunnelIDStoreKey(tunnelID)] == old(Store_tunnel)[types.ActiveTunnelIDStoreKey(tunnelID)]))
